@@ -70,7 +70,8 @@ var checks = map[string]checkSpec{
 	"C11": {modDir: repoDir, pkg: "./cmd/gotelemetry/internal/view", test: "TestVerifC11View", shards: 8, quickS: 150, thoroS: 900, gomaxp: "2", floor: 200, minClass: 6,
 		extra: []leg{{repoDir + "/godev", "./cmd/telemetrygodev", "TestVerifC11Server", 8}}},
 	"C13": {modDir: repoDir + "/godev", pkg: "./cmd/worker", test: "TestVerifC13", quickS: 200, thoroS: 1200, gomaxp: "2", floor: 1000, minClass: 5},
-	"C18": {modDir: repoDir + "/godev", pkg: "./internal/storage", test: "TestVerifC18", shards: 8, quickS: 150, thoroS: 900, gomaxp: "2", floor: 200, minClass: 3},
+	"C18": {modDir: repoDir + "/godev", pkg: "./internal/storage", test: "TestVerifC18", shards: 8, quickS: 150, thoroS: 900, gomaxp: "2", floor: 200, minClass: 3,
+		extra: []leg{{repoDir + "/godev", "./cmd/telemetrygodev", "TestVerifC18Server", 1}}},
 	"C12": {modDir: repoDir + "/godev", pkg: "./cmd/telemetrygodev", test: "TestVerifC12", shards: 8, quickS: 150, thoroS: 900, gomaxp: "4", floor: 500, minClass: 4},
 	"C09": {modDir: repoDir, pkg: "./internal/counter", test: "TestVerifC09", quickS: 150, thoroS: 1200, gomaxp: "2", floor: 20000, minClass: 20,
 		extra: []leg{{repoDir, "./internal/upload", "TestVerifC09Upload", 0}}},
